@@ -386,7 +386,13 @@ impl Prop for C01 {
         "E4 seam-fault-enum"
     }
     fn extra_coverage(stats: &simrt::Stats) -> serde_json::Value {
+        let calls = stats.probes.get("c01_calls").copied().unwrap_or(0);
+        let distinct = stats.probes.get("c01_distinct_inputs").copied().unwrap_or(0);
         serde_json::json!({
+            "evaluations": calls,
+            "distinct_nontrivial": distinct,
+            "distinct_nontrivial_note": "distinct (request octets, transport) pairs per (shape, configuration) execution, summed over executions (executions differ in shape or configuration); every input is a faulted or unmodified corpus request, hence non-trivial",
+            "executions": stats.executions,
             "exhaustive": true,
             "exhaustive_scope": "all single faults (truncation, substitution alphabet, count bumps, appends, tail duplication) of every corpus message on both transports under every configuration; fault pairs are sampled",
             "handle_message_calls": stats.probes.get("c01_calls").copied().unwrap_or(0),
@@ -406,12 +412,23 @@ struct Harness {
     server: Server<Cat>,
     buf: Vec<u8>,
     sites: Vec<String>,
+    /// hashes of the (input, transport) pairs tried in this execution
+    seen: std::collections::HashSet<u64>,
     /// an unlisted violation has been recorded (it is never replaced)
     unlisted_recorded: bool,
 }
 impl Harness {
     fn call(&mut self, msg: &[u8], tcp: bool, what: &str) {
         simrt::probe("c01_calls");
+        {
+            let mut hsh = 0xcbf29ce484222325u64 ^ tcp as u64;
+            for b in msg {
+                hsh = (hsh ^ *b as u64).wrapping_mul(0x100000001b3);
+            }
+            if self.seen.insert(hsh) {
+                simrt::probe("c01_distinct_inputs");
+            }
+        }
         let src = IpAddr::V4(Ipv4Addr::new(203, 0, 113, (msg.len() % 200) as u8));
         let t = if tcp { Transport::Tcp } else { Transport::Udp };
         let server = &self.server;
@@ -486,7 +503,7 @@ fn apply_fault(base: &[u8], r: &mut SplitMix) -> Vec<u8> {
 
 fn run(scn: &Scn) {
     simrt::start(world_cfg(13, FaultCfg::none()));
-    let mut h = Harness { msg: scn.msg, cfg: scn.cfg, server: make_server(scn.cfg), buf: vec![0u8; 65535], sites: vec![], unlisted_recorded: false };
+    let mut h = Harness { msg: scn.msg, cfg: scn.cfg, server: make_server(scn.cfg), buf: vec![0u8; 65535], sites: vec![], seen: std::collections::HashSet::new(), unlisted_recorded: false };
     if let Some((hex, tcp)) = &scn.only {
         h.call(&crate::util::unhex(hex), *tcp, "replay of one input");
         simrt::finish();
